@@ -69,7 +69,8 @@ MANIFEST = dict(
 )
 
 IMPORTS = ['Coq.NArith.NArith', 'Coq.ZArith.ZArith', 'Coq.Lists.List', 'Coq.Bool.Bool', 'SV.Fmt.DmxCodes', 'SV.Fmt.DmxBin',
-           'SV.Fmt.DmxKv1', 'SV.Fmt.DmxScalar', 'SV.Gen.DmxCodes_gen']
+           'SV.Fmt.DmxKv1', 'SV.Fmt.DmxScalar', 'SV.Text.Str', 'SV.Text.Tokenizer', 'SV.Text.TokGen', 'SV.Fmt.DmxKv2',
+           'SV.Gen.DmxCodes_gen', 'SV.Fmt.DmxKv2Inst']
 PRE_BIN = '''Import ListNotations. Open Scope N_scope.
 Definition idenc (_ : enc) (s : str) : bytes := s.
 Definition iddec (_ : enc) (b : bytes) : option str := Some b.
@@ -412,6 +413,128 @@ def angle_norm_identity(ck: Ck) -> None:
                   f'FrozenAngle(x, x, x) keeps x for {len(pats)} binary32 patterns in [0, 360) (boundaries + sample): {len(bad)} changed {bad[:3]}')
 
 
+
+# ------------------------------------------------------------------------------------------------ KeyValues2 text
+IMPORTS_KV2 = ['Coq.NArith.NArith', 'Coq.Lists.List', 'Coq.Bool.Bool', 'SV.Text.Str', 'SV.Text.Tokenizer', 'SV.Text.TokGen',
+               'SV.Fmt.DmxKv2', 'SV.Gen.DmxCodes_gen', 'SV.Fmt.DmxKv2Inst']
+PRE_KV2 = """Import ListNotations. Open Scope N_scope.
+Fixpoint leqb {A} (f : A -> A -> bool) (a b : list A) : bool :=
+  match a, b with [], [] => true | x :: a', y :: b' => f x y && leqb f a' b' | _, _ => false end.
+Definition kitem_eqb (a b : kitem) := match a, b with KStr x, KStr y => str_eqb x y | KNull, KNull => true | KRef x, KRef y => str_eqb x y | _, _ => false end.
+Definition kattr_eqb (a b : kattr) := str_eqb (ka_name a) (ka_name b) && str_eqb (ka_type a) (ka_type b) && Bool.eqb (ka_arr a) (ka_arr b) && leqb kitem_eqb (ka_items a) (ka_items b).
+Definition ostr_eqb (a b : option str) := match a, b with Some x, Some y => str_eqb x y | None, None => true | _, _ => false end.
+Definition kelem_eqb (a b : kelem) := str_eqb (ke_type a) (ke_type b) && ostr_eqb (ke_id a) (ke_id b) && str_eqb (ke_name a) (ke_name b) && leqb kattr_eqb (ke_attrs a) (ke_attrs b).
+Definition okdoc_eqb (a b : option kdoc) := match a, b with Some x, Some y => leqb kelem_eqb x y | None, None => true | _, _ => false end.
+(* per case: 0 ok, 1 model text differs from export_kv2(flat=True), 2 model parse of that text differs from parse_kv2,
+   3 the document is outside doc_ok (generator bug) *)
+Definition chk2 (c : kdoc * str * option kdoc) : N := let '(d, text, back) := c in
+  if negb (doc_ok gen_tables gen_vtnames d) then 3
+  else if str_eqb (gen_render_doc d) text then (if okdoc_eqb (gen_parse_text text) back then 0 else 2) else 1.
+Fixpoint bad_idx {A} (f : A -> N) (n : N) (l : list A) : list N := match l with [] => [] | x :: r => (if f x =? 0 then [] else [n * 10 + f x]) ++ bad_idx f (n + 1) r end.
+"""
+
+
+def _cps(x: str) -> str:
+    return '[' + ';'.join(str(ord(c)) for c in x) + ']'
+
+
+def kdoc_of(root, conv_strings: bool = True) -> list:
+    """The string-level document of a real element graph, elements in the order export_kv2 lists them (breadth first in
+    attribute order, stubs and NULL are not elements): [(type, uuid text, name, [(attr name, type keyword, is_array,
+    [item])])], item = ('S', text) | ('N',) | ('R', uuid text).  Value strings come from TYPE_CONVERT[t, STRING]."""
+    from srctools import dmx
+    order, seen = [root], {id(root)}
+    out = []
+    for el in order:
+        attrs = []
+        for key, attr in el._members.items():
+            if attr.name == 'name':
+                continue
+            raw = attr._value if attr.is_array else [attr._value]
+            items = []
+            for v in raw:
+                if attr.type is dmx.ValueType.ELEMENT:
+                    if v.is_null:
+                        items.append(('N',))
+                    else:
+                        items.append(('R', str(v.uuid)))
+                        if not v.is_stub and id(v) not in seen:
+                            seen.add(id(v))
+                            order.append(v)
+                else:
+                    items.append(('S', dmx.TYPE_CONVERT[attr.type, dmx.ValueType.STRING](v)))
+            attrs.append((attr.name, attr.type.value, bool(attr.is_array), items))
+        out.append((el.type, str(el.uuid), el.name, attrs))
+    return out
+
+
+def coq_kdoc(d: list) -> str:
+    def item(i):
+        return 'KNull' if i[0] == 'N' else (f'(KStr {_cps(i[1])})' if i[0] == 'S' else f'(KRef {_cps(i[1])})')
+    els = []
+    for typ, uid, name, attrs in d:
+        al = [f'{{| ka_name := {_cps(n)}; ka_type := {_cps(t)}; ka_arr := {"true" if arr else "false"}; ka_items := {coq_list(item(i) for i in its)} |}}'
+              for n, t, arr, its in attrs]
+        els.append(f'{{| ke_type := {_cps(typ)}; ke_id := Some {_cps(uid)}; ke_name := {_cps(name)}; ke_attrs := {coq_list(al)} |}}')
+    return coq_list(els)
+
+
+def corr_kv2(ck: Ck) -> None:
+    """Fmt/DmxKv2.v writer and parser (on the regenerated tokenizer tables) vs export_kv2(flat=True) and parse_kv2:
+    the model's text equals the exported text after the header line, and the model's parse of that text equals the
+    string-level document of what Element.parse returns."""
+    from srctools import dmx
+    n = ck.budget(60, 900)
+    cases = []
+    corpus = [s for _, s, ms in CORPUS if any(m['fmt'] == 'kv2' for m in ms)]
+    for i in range(n):
+        uni = ck.rng.choice(['ascii', 'format', 'silent'])
+        spec = corpus[i] if i < len(corpus) else U.gen_spec(ck.rng, uni != 'ascii')
+        elems = U.build(spec)
+        if any(a.name.casefold() == 'name' and a.name != 'name' for e in elems for a in e._members.values()):
+            continue
+        buf = io.BytesIO()
+        try:
+            elems[0].export_kv2(buf, flat=True, unicode=uni)
+        except Exception:
+            ck.count('corr_kv2_export_error')
+            continue
+        data = buf.getvalue()
+        head, _, body = data.partition(b'\r\n')
+        text = body.decode('utf8' if uni != 'ascii' else 'ascii')
+        d = kdoc_of(elems[0])
+        try:
+            got, _, _ = dmx.Element.parse(io.BytesIO(data), unicode=(uni == 'silent'))
+            back = f'(Some {coq_kdoc(kdoc_of(got))})'
+        except Exception:
+            back = 'None'
+            ck.count('corr_kv2_impl_parse_error')
+        cases.append((spec, uni, f'({coq_kdoc(d)}, {_cps(text)}, {back})'))
+        ck.count('corr_kv2_cases')
+        ck.hist('corr_kv2_text_chars', len(text) // 500 * 500)
+        if len(d) > 1 or d[0][3]:
+            ck.seen(('k2', uni, repr(d)))
+    bad = []
+    for lo in range(0, len(cases), 30):
+        vals = ck.coq_eval(IMPORTS_KV2, [f'bad_idx chk2 0 {coq_list(x[2] for x in cases[lo:lo + 30])}'], name='kv2', preamble=PRE_KV2)
+        if vals is None:
+            ck.obligation('correspondence:kv2-flat-text', False, 'model could not be evaluated')
+            ck.tie_broken.append('correspondence KV2 flat text: model evaluation failed')
+            return
+        bad += [(lo + v // 10, v % 10) for v in parse_coq_N_list(vals[0])]
+    ck.obligation('correspondence:kv2-flat-text', not bad,
+                  f'{len(cases)} documents: Fmt/DmxKv2.v render_doc vs export_kv2(flat=True) text (exact), parse_text of that text vs '
+                  f'the string-level document of Element.parse: {len(bad)} disagreements')
+    if cases:
+        ck.sample({'kv2_flat_case': {'unicode': cases[-1][1], 'spec': cases[-1][0]}})
+    if bad:
+        i, code = bad[0]
+        ck.tie_broken.append('correspondence KV2 flat text (Fmt/DmxKv2.v vs export_kv2/parse_kv2)')
+        ck.extra['kv2_disagreement'] = {'spec': cases[i][0], 'unicode': cases[i][1],
+                                        'kind': {1: 'model text differs from export_kv2', 2: 'model parse differs from parse_kv2',
+                                                 3: 'generated document outside doc_ok'}.get(code, code)}
+
+
 # ------------------------------------------------------------------------------------------------ KV1 bridge
 KV_NAMES = ['a', 'b', 'A', 'key', 'Key', 'name', 'Name', 'NAME', 'subkeys', 'SubKeys', 'value', 'Value', 'id', '', 'x y', 'q"t', 'c']
 KV_NAMES_UNI = ['ß', 'ss', 'SS', 'İ', 'é', 'É', 'ǆ', 'ǅ', 'ſubkeys', 'ﬁ', 'fi']
@@ -712,6 +835,16 @@ OBLIGATIONS = {
     'kv2_array_value_uses_file_codec': 'kv2_array_value_uses_file_codec',
     'kv2_scalar_value_uses_file_codec': 'kv2_scalar_value_uses_file_codec',
     'kv2_stub_keeps_uuid': 'kv2_stub_keeps_uuid',
+    'kv2_scalar_reference_table_ok': 'rtable_ok gen_ref_scalar',
+    'kv2_array_reference_table_ok': 'rtable_ok gen_ref_array',
+    'kv2_reference_tables_agree': 'rtables_agree gen_ref_scalar gen_ref_array',
+    'kv2_stubs_written_by_reference': 'stub_by_reference gen_ref_scalar && stub_by_reference gen_ref_array',
+    'kv2_tokenizer_tables_ok': 'kv2_tables_ok gen_tables',
+    'kv2_tokenizer_options_ok': 'kv2_opts_ok gen_kv2_opts',
+    'kv2_type_keywords_stable': 'kv2_type_keywords_stable',
+    'kv2_element_and_string_are_types': 'kv2_element_and_string_are_types',
+    'kv2_literals_need_no_escape': 'kv2_literals_need_no_escape',
+    'kv2_text_premises': 'vtnames_ok gen_tables gen_fold gen_vtnames',
     'kv1_element_types_distinct': 'kv1_types_distinct gen_kv1',
     'kv1_keys_written_are_keys_read': 'kv1_keys_agree gen_kv1',
     'kv1_reserved_names_cover_name_and_subkeys': 'kv1_reserved_covers gen_kv1',
@@ -725,6 +858,11 @@ EXPLAIN = {
     'instance:kv2_attribute_name_escaped': ['kv2', 'attr-name-needs-escape'],
     'instance:kv2_type_uses_file_codec': ['kv2', 'nonascii-element-type'],
     'instance:kv2_stub_keeps_uuid': ['kv2', 'stub'],
+    'instance:kv2_array_reference_table_ok': ['kv2', 'stub'],
+    'instance:kv2_scalar_reference_table_ok': ['kv2', 'stub'],
+    'instance:kv2_reference_tables_agree': ['kv2', 'stub'],
+    'instance:kv2_stubs_written_by_reference': ['kv2', 'stub'],
+    'correspondence:kv2-flat-text': ['kv2', ''],
     'instance:time_rounds_to_nearest_tick': ['binary', 'time'],
     'instance:time_scale_written_is_scale_read': ['binary', 'time'],
     'instance:matrix_cells_read_where_written': ['binary', 'matrix'],
@@ -769,7 +907,8 @@ def run(ck: Ck) -> None:
         'attribute names of one element are distinct after casefold (true of every Element: _members is keyed by the casefolded name)',
         'str.casefold fixes "name" and "subkeys" and does not map "value" to "name" (checked at run time)',
     ]
-    ok_t = ck.translate('DmxCodes_gen', c14_dmx.translate)
+    from translate import c02_tables
+    ok_t = ck.translate('EscTables_gen', c02_tables.translate) and ck.translate('DmxCodes_gen', c14_dmx.translate)
     side = ck.extra.get('translated', {}).get('DmxCodes_gen', {})
     built = ok_t and ck.build(['Gen/DmxCodes_gen.vo', 'Props/C14.vo'])
     if built:
@@ -779,6 +918,7 @@ def run(ck: Ck) -> None:
         angle_norm_identity(ck)
         corr_scalar(ck)
         corr_binary(ck)
+        corr_kv2(ck)
         corr_kv1(ck)
     search_graphs(ck)
     search_kv1(ck)
